@@ -630,7 +630,8 @@ def random_history(rng, runner, length, failing=0.3, skip=()):
         except Exception:
             continue
         cell = "%s:%s" % (op[0], "+".join(sorted(set(probe))) or "-")
-        if op[0] in ("merge", "set_link") and set(probe) & {"self", "related", "ancestor", "descendant"}:
+        if op[0] in ("merge", "set_link") and set(probe) & {"self", "related", "ancestor", "descendant",
+                                                          "other-document-or-detached"}:
             # outside every quantifier (merging a Section into itself / its own subtree, links to the
             # own subtree); exercised once each by the directed deck only
             runner.rec.count("skipped_out_of_scope_cells", cell)
